@@ -17,7 +17,7 @@ DECIDES = ("Decided: the three failure shapes the property names - a reversed va
            "direction its governing variance prescribes (Kotlin type-containment table), ParameterizedType.is_subtype "
            "checks every argument of the same constructor, every positive-capable return of all is_subtype / "
            "is_assignable definitions in src/ir is one of the enumerated sound shapes, and type variables / wildcards "
-           "/ type constructors consult their bounds.")
+           "/ type constructors consult their bounds. Also: the supertype closure Type.get_supertypes is a complete worklist closure (seed, every supertype expanded, push iff unvisited); the judgement keeps no state in class bodies or mutable defaults; no answer is taken from the Python class hierarchy of the representing classes.")
 NOT_DECIDED = "exactness, reflexivity and transitivity on concrete types (value-level algebra)."
 
 T = "src.ir.types"
